@@ -69,7 +69,7 @@
      `saturatedB` — first-order branches included.  Two hypotheses are properties of the BRANCH alone and can only fail with
      vacuous quantification (`TickedQ`, Boolean `ckTickedQ`; a branch with quantifier nodes has a constant).  Per logic
      (Ptx/Gen/ObH_<L>.lean): `<L>_search_side_fo`, `<L>_completed_is_saturated_fo`, `<L>_search_completed_countermodel_fo`.
-     Only `IdentityIndiscernability` remains outside the model.
+     (`IdentityIndiscernability` joined the model in the last increment: see (2-ALL) below.)
    * SIXTH INCREMENT.  `cpl.IdentityIndiscernability` is inside the model (`RuleId.ident`, `identTargets`: identity node × predication
      node of `PredNodes` at the same world, both directions through the calculus' own `identAdd`, skipping self-identities and
      nodes already on the branch AT THAT WORLD; `inv_apply_ident`, `target_legal_ident`); every theorem (`inv_reachable`,
